@@ -291,7 +291,17 @@ def run_newmark_case(sh, np, ode, rec, C, r, case):
         for q, (key, func, T, args) in enumerate(C["nl"]):
             dct[key] = (func, T.copy(), args) if (q % 2 == 0 or args) else (func, T.copy())
         ts.def_nonlin(dct)
-    sol = ts.tsolve(C["F"].copy(), C["d0"], C["v0"])
+    Fin = np.asfortranarray(C["F"].copy()) if case.get("index", 0) % 3 == 1 \
+        else C["F"].copy()
+    ics = [None if x is None else np.array(x, copy=True) for x in (C["d0"], C["v0"])]
+    sol = ts.tsolve(Fin, C["d0"], C["v0"])
+    sh.count("mon:nm-inputs-unmutated")
+    if not np.array_equal(Fin, C["F"]) or any(
+            a is not None and not np.array_equal(a, b)
+            for a, b in zip(ics, (C["d0"], C["v0"]))):
+        sh.violation("nm-inputs-unmutated", case,
+                     {"force_changed": bool(not np.array_equal(Fin, C["F"])),
+                      "fortran_ordered": bool(case.get("index", 0) % 3 == 1)}, tags)
     args = (None if C["m"] is None else C["M"], C["B"], C["K"], C["F"], C["h"],
             C["d0"], C["v0"])
     kw = dict(rf=C["rf"], nonlin=C["nl"])
@@ -445,7 +455,12 @@ def part_cdf(sh, np, ode, rec, params):
                 ts = ode.SolveCDF(C["m"], C["b"], C["k"], C["h"], **kw)
             else:
                 ts = ode.SolveUnc(C["m"], C["b"], C["k"], C["h"], cd_as_force=True, **kw)
-            sol = ts.tsolve(C["F"].copy(), C["d0"], C["v0"], static_ic=C["static_ic"])
+            Fin = np.asfortranarray(C["F"].copy()) if ci % 3 == 1 else C["F"].copy()
+            sol = ts.tsolve(Fin, C["d0"], C["v0"], static_ic=C["static_ic"])
+            sh.count("mon:cdf-inputs-unmutated")
+            if not np.array_equal(Fin, C["F"]):
+                sh.violation("cdf-inputs-unmutated", case,
+                             {"fortran_ordered": bool(ci % 3 == 1)}, t)
             if diag_only:
                 tu = ode.SolveUnc(C["m"], C["b"], C["k"], C["h"], **kw)
                 su = tu.tsolve(C["F"].copy(), C["d0"], C["v0"],
